@@ -28,24 +28,24 @@ type PPO struct {
 // reflectPanicky: reflect methods documented to panic on the wrong kind / unsettable / out of range,
 // with the kinds that make them safe ("" = cannot be discharged by a Kind test).
 var reflectPanicky = map[string][]string{
-	"(reflect.Value).Elem":      {"Ptr", "Interface", "Pointer"},
-	"(reflect.Value).NumField":  {"Struct"},
-	"(reflect.Value).Field":     {"Struct"},
-	"(reflect.Value).Index":     {"Slice", "Array", "String"},
-	"(reflect.Value).Len":       {"Slice", "Array", "String", "Map", "Chan"},
-	"(reflect.Value).Convert":   nil,
-	"(reflect.Value).Set":       nil,
-	"(reflect.Value).Addr":      nil,
-	"(reflect.Value).IsNil":     {"Ptr", "Interface", "Slice", "Map", "Chan", "Func", "Pointer"},
-	"(reflect.Value).Int":       {"Int", "Int8", "Int16", "Int32", "Int64"},
-	"(reflect.Value).Uint":      {"Uint", "Uint8", "Uint16", "Uint32", "Uint64", "Uintptr"},
-	"(reflect.Value).Float":     {"Float32", "Float64"},
-	"(reflect.Value).Bool":      {"Bool"},
-	"(reflect.Value).SetUint":   {"Uint", "Uint8", "Uint16", "Uint32", "Uint64", "Uintptr"},
-	"(reflect.Value).SetInt":    {"Int", "Int8", "Int16", "Int32", "Int64"},
-	"(reflect.Value).Interface": nil,
-	"(reflect.Value).Type":      nil,
-	"(reflect.Value).IsZero":    nil,
+	"(reflect.Value).Elem":           {"Ptr", "Interface", "Pointer"},
+	"(reflect.Value).NumField":       {"Struct"},
+	"(reflect.Value).Field":          {"Struct"},
+	"(reflect.Value).Index":          {"Slice", "Array", "String"},
+	"(reflect.Value).Len":            {"Slice", "Array", "String", "Map", "Chan"},
+	"(reflect.Value).Convert":        nil,
+	"(reflect.Value).Set":            nil,
+	"(reflect.Value).Addr":           nil,
+	"(reflect.Value).IsNil":          {"Ptr", "Interface", "Slice", "Map", "Chan", "Func", "Pointer"},
+	"(reflect.Value).Int":            {"Int", "Int8", "Int16", "Int32", "Int64"},
+	"(reflect.Value).Uint":           {"Uint", "Uint8", "Uint16", "Uint32", "Uint64", "Uintptr"},
+	"(reflect.Value).Float":          {"Float32", "Float64"},
+	"(reflect.Value).Bool":           {"Bool"},
+	"(reflect.Value).SetUint":        {"Uint", "Uint8", "Uint16", "Uint32", "Uint64", "Uintptr"},
+	"(reflect.Value).SetInt":         {"Int", "Int8", "Int16", "Int32", "Int64"},
+	"(reflect.Value).Interface":      nil,
+	"(reflect.Value).Type":           nil,
+	"(reflect.Value).IsZero":         nil,
 	"invoke:(reflect.Type).Elem":     {"Ptr", "Slice", "Array", "Map", "Chan", "Pointer"},
 	"invoke:(reflect.Type).Field":    {"Struct"},
 	"invoke:(reflect.Type).NumField": {"Struct"},
@@ -540,7 +540,7 @@ func AutoDischarge(p *PPO) {
 		}
 		recv := p.Operand
 		if DominatingGuard(f, p.Instr, func(cd *Cond) int { return kindEdge(cd, recv, kinds) }) {
-			p.Discharged, p.Why = true, "dominated by a Kind() test for " + strings.Join(kinds, "/")
+			p.Discharged, p.Why = true, "dominated by a Kind() test for "+strings.Join(kinds, "/")
 		}
 	case "slice":
 		sl := p.Instr.(*ssa.Slice)
